@@ -280,6 +280,66 @@ def decode_many(blobs, nproc=16):
         shutil.rmtree(d, ignore_errors=True)
 
 
+def decode_all(blobs):
+    """Full linear decode of each blob: -> list of (tiles_exactly, [(length, mnemonic, text), ...])."""
+    n = len(blobs)
+    if n == 0:
+        return []
+    d = tmpdir()
+    try:
+        path = os.path.join(d, "seq.bin")
+        starts = []
+        pos = 0
+        chunks = []
+        for bl in blobs:
+            starts.append(pos)
+            chunks.append(bl)
+            chunks.append(b"\xcc" * PAD)
+            pos += len(bl) + PAD
+        with open(path, "wb") as f:
+            f.write(b"".join(chunks))
+        p = subprocess.run(["objdump", "-D", "-b", "binary", "-mi386:x86-64", "-M", "intel", "-w", path],
+                           stdout=subprocess.PIPE, stderr=subprocess.PIPE)
+        if p.returncode != 0:
+            raise RuntimeError("objdump failed")
+        lines = []
+        for ln in p.stdout.decode("latin-1").split("\n"):
+            head, sep, tail = ln.partition(":\t")
+            if not sep:
+                continue
+            try:
+                addr = int(head, 16)
+            except ValueError:
+                continue
+            bs, _, text = tail.partition("\t")
+            lines.append((addr, len(bs.split()), text.strip()))
+        import bisect
+        addrs = [a for a, _, _ in lines]
+        out = []
+        for st, bl in zip(starts, blobs):
+            end = st + len(bl)
+            i = bisect.bisect_left(addrs, st)
+            seq = []
+            ok = i < len(lines) and lines[i][0] == st
+            cur = st
+            while ok and cur < end and i < len(lines):
+                a, ln_, text = lines[i]
+                if a != cur:
+                    ok = False
+                    break
+                toks = text.split()
+                while toks and (toks[0] in PREFIX_TOKENS or toks[0].startswith("rex.")):
+                    toks.pop(0)
+                seq.append((ln_, toks[0] if toks else "", text))
+                cur += ln_
+                i += 1
+            out.append((ok and cur == end, seq))
+        return out
+    finally:
+        import shutil
+        shutil.rmtree(d, ignore_errors=True)
+
+
 if __name__ == "__main__":
     import sys
     bl = [bytes.fromhex(x) for x in sys.argv[1:]]
